@@ -52,12 +52,20 @@ impl<T> ResourceStorage<T> {
 	}
 
 	pub fn remove_and_add(&mut self, remove_test: impl FnMut(&T) -> bool) {
+		#[cfg(kira_verif)]
+		crate::verif::yield_point("res.remove_and_add.begin");
 		for (_, resource) in self.resources.drain_filter(remove_test) {
+			#[cfg(kira_verif)]
+			crate::verif::yield_point("res.unused.push");
 			self.unused_resource_producer
 				.push(resource)
 				.unwrap_or_else(|_| panic!("unused resource producer is full"));
 		}
+		#[cfg(kira_verif)]
+		crate::verif::yield_point("res.remove_and_add.mid");
 		while let Ok((key, resource)) = self.new_resource_consumer.pop() {
+			#[cfg(kira_verif)]
+			crate::verif::yield_point("res.new.popped");
 			self.resources
 				.insert_with_key(key, resource)
 				.expect("error inserting resource");
@@ -129,8 +137,14 @@ impl<T> SelfReferentialResourceStorage<T> {
 	}
 
 	pub fn remove_and_add(&mut self, remove_test: impl FnMut(&T) -> bool) {
+		#[cfg(kira_verif)]
+		crate::verif::yield_point("sres.remove_and_add.begin");
 		self.remove_unused(remove_test);
+		#[cfg(kira_verif)]
+		crate::verif::yield_point("sres.remove_and_add.mid");
 		while let Ok((key, resource)) = self.new_resource_consumer.pop() {
+			#[cfg(kira_verif)]
+			crate::verif::yield_point("sres.new.popped");
 			self.resources
 				.insert_with_key(key, resource)
 				.expect("error inserting resource");
@@ -164,6 +178,8 @@ impl<T> SelfReferentialResourceStorage<T> {
 			let resource = &mut self.resources[key];
 			if remove_test(resource) {
 				let resource = self.resources.remove(key).unwrap();
+				#[cfg(kira_verif)]
+				crate::verif::yield_point("sres.unused.push");
 				self.unused_resource_producer
 					.push(resource)
 					.unwrap_or_else(|_| panic!("unused resource producer is full"));
@@ -199,13 +215,19 @@ impl<T> ResourceController<T> {
 	}
 
 	pub fn try_reserve(&self) -> Result<Key, ResourceLimitReached> {
+		#[cfg(kira_verif)]
+		crate::verif::yield_point("res.try_reserve");
 		self.arena_controller
 			.try_reserve()
 			.map_err(|_| ResourceLimitReached)
 	}
 
 	pub fn insert_with_key(&mut self, key: Key, resource: T) {
+		#[cfg(kira_verif)]
+		crate::verif::yield_point("res.insert.begin");
 		self.remove_unused();
+		#[cfg(kira_verif)]
+		crate::verif::yield_point("res.insert.push");
 		self.new_resource_producer
 			.get_mut()
 			.expect("new resource producer mutex poisoned")
@@ -218,6 +240,8 @@ impl<T> ResourceController<T> {
 			.unused_resource_consumer
 			.get_mut()
 			.expect("unused resource consumer mutex poisoned");
+		#[cfg(kira_verif)]
+		crate::verif::yield_point("res.unused.drain");
 		while unused_resource_consumer.pop().is_ok() {}
 	}
 
